@@ -277,6 +277,9 @@ def pack_rule(ctx, crate):
     from bits import Bits, sym_bits
     from rules.common import feval
     for hf, want in ((M + "is_partial", "flag"), (M + "is_not_first_cell_of_larger_cell", "low2")):
+        if crate.body(hf) is None:
+            # the predicate is written in place in `pack` (no helper of that name): this narrow rule does not apply
+            ctx.not_decided("pack: the predicate %s of the skip loop (no such helper; written in place)" % hf.rsplit("::", 1)[-1]); continue
         hb = ctx.anchor(crate, hf, clause)
         if hb is None: continue
         eh = Engine(crate); rh = eh.run(hf); ctx.functions |= eh.visited_fns
